@@ -475,3 +475,11 @@ Fixpoint lens_ok (s : st) (ops : list op) : bool :=
   | [] => true
   | o :: t => len_ok s o && lens_ok (fst (step false s o)) t
   end.
+
+(* ---------- example histories used by the non-vacuity Examples of Properties/C13.v ---------- *)
+Definition ex_ops : list op :=
+  [A (PReserve 1 0 40); A (PReserve 2 0 40); A (PEnd 1 (WData 40) 0%Z); A (PEnd 2 (WData 40) 0%Z);
+   A (PReserve 3 1 40); A (PRelease 2); A (PReserve 4 1 40); WtEnd 4 WErr; A (PReserve 5 1 30);
+   WtEnd 5 (WData 30); Drain true; Tick 2000; Expire].
+Definition ex_lops : list (lop * Z) :=
+  [(LAdd 0 0%Z, 0%Z); (LAdd 1 1%Z, 1%Z); (LAdd 0 2%Z, 2%Z)].
